@@ -36,6 +36,8 @@ Definition seq0 (cls : list (Z * Z)) (zc : Z) (a : sym) : bool :=
 (* ---- export side: atoms print as #k, ids in decimal ---- *)
 Definition sexport (cls : list (Z * Z)) (zc : Z) (g : graph sym) : result (list line) :=
   export sym sprint dec (seq0 cls zc) (seqn cls) g.
+Definition sexport_file (cls : list (Z * Z)) (zc : Z) (g : graph sym) : option (list line) :=
+  export_file sym sprint dec (seq0 cls zc) (seqn cls) g.
 (* ---- import side: float()/int() are tables filled by the harness with Python's own answers ---- *)
 Definition simport (ft : list (string * Z)) (it : list (string * Z)) (cts : list ctype) (ls : list string)
   : result (graph sym * list string) :=
@@ -82,6 +84,11 @@ Definition dump_export (r : result (list line)) : list Z :=
   match r with
   | Error e => [MAGIC; 0; err_code e]
   | Ok ls => MAGIC :: 1 :: codes (String.concat "" (map render ls))
+  end.
+Definition dump_export_file (r : option (list line)) : list Z :=
+  match r with
+  | None => [MAGIC; 0]
+  | Some ls => MAGIC :: 1 :: codes (String.concat "" (map render ls))
   end.
 Definition dump_import (r : result (graph sym * list string)) : list Z :=
   match r with
